@@ -109,6 +109,7 @@ def _reference_once(model, pt, extra_env, jit):
             return get(k)
 
     lookup = L()
+    lookup.inputs = set(env)
     vals = {n: get(n) for n in defs}
     return vals, pr
 
